@@ -412,6 +412,12 @@ def loop_obligations():
                 if rec:
                     why = RECURSION_OK.get((mname, q))
                     out.append(Obl("recursion-has-variant", f"{mname}.{q}", rec[0].lineno, why is not None, f"recursive call: " + (why or "no termination argument on record")))
+    # the termination argument of every recursion on record is "... or the interpreter's recursion limit ends it" (reference cycles
+    # among clipPaths / gradient templates are cut by RecursionError): the package must not move that limit or the thread stack size
+    for mname, tree in mods.items():
+        bad = [n for n in ast.walk(tree) if isinstance(n, ast.Call) and ((isinstance(n.func, ast.Attribute) and n.func.attr in ("setrecursionlimit", "stack_size")) or (isinstance(n.func, ast.Name) and n.func.id in ("setrecursionlimit", "stack_size")))]
+        out.append(Obl("recursion-limit-untouched", f"{mname}", bad[0].lineno if bad else 0, not bad, "no call of sys.setrecursionlimit / threading.stack_size" if not bad else
+                       f"line {bad[0].lineno} changes the recursion limit / stack size: recursion along a reference cycle is no longer cut after ~1000 frames"))
     # for loops over something that the body grows
     for mname, tree in mods.items():
         for q, fn in _functions(tree):
